@@ -105,8 +105,8 @@ def component_twins(ctx: Ctx):
         c1, t1 = p_exact.build_poly_component(rng, nx, 0, ny, levels, kpl, unit, name='orig')
         # a third of the twins normalise their inputs with minmax (the normalisation must not introduce an absolute length scale either)
         tw_norms = {f'x{k}': 'minmax' for k in range(nx)} if rng.random() < 0.33 else None
-        if i < 2:       # stratified: the narrowest width of the property's range (1e-9) under minmax is always covered
-            tw_norms = {f'x{k}': 'minmax' for k in range(nx)}
+        if i < 4:       # stratified: the narrowest width of the property's range (1e-9) is always covered, under minmax (i < 2) and un-normalised
+            tw_norms = {f'x{k}': 'minmax' for k in range(nx)} if i < 2 else None
             doms[0] = (rng.choice([0.0, 1.0]), 0.0); doms[0] = (doms[0][0], doms[0][0] + 1e-9)
         case['twin_input_norm'] = 'minmax' if tw_norms else None
         c2, t2 = p_exact.build_poly_component(rng, nx, 0, ny, levels, kpl, doms, name='twin', norms=tw_norms)
@@ -121,6 +121,15 @@ def component_twins(ctx: Ctx):
         ctx.case(case, nontrivial=len(order) >= 3, kind='component-twin')
         wmin = min(d[1] - d[0] for d in doms); ctx.count(f'log10(min width)={int(np.floor(np.log10(wmin)))}')
         us = [[rng.random() * 1.2 - 0.1 for _ in range(nx)] for _ in range(4)]
+        # ... and points 2^-12 of the width away from a node of the twin's grid (far outside the relative snapping tolerance at every scale;
+        # an absolute floor on that tolerance would swallow them on the narrowest domains)
+        for _ in range(2):
+            u_ = [rng.random() for _ in range(nx)]
+            k0 = 0 if i < 4 else rng.randrange(nx)
+            g_ = [float(c2.inputs[f'x{k0}'].denormalize(np.array([t_]))[0]) for t_ in c2.training_data.x_grids[f'x{k0}']]
+            node_u = (rng.choice(g_) - doms[k0][0]) / (doms[k0][1] - doms[k0][0])
+            u_[k0] = node_u + rng.choice([-1, 1]) * 2.0 ** -12
+            us.append(u_)
         for u in us:
             x2 = [doms[k][0] + (doms[k][1] - doms[k][0]) * u[k] for k in range(nx)]
             ok = p_exact.check_component(ctx, c2, t2, doms, 0, nx, 'train', [x2], case, 'C17')
